@@ -247,6 +247,13 @@ m("C15-n3", "C15", "impls/src/backends/lmdb.rs", "\t\tlet mut deriv_idx = {\n\t\
 m("C16-r7a", "C16", "libwallet/src/internal/selection.rs", "\t\t\tlet change_key = wallet.next_child(keychain_mask, parent_key_id)?;", "\t\t\tlet active = wallet.parent_key_id();\n\t\t\tlet change_key = wallet.next_child(keychain_mask, &active)?;", "C16.R7")
 m("C16-r7b", "C16", "libwallet/src/internal/selection.rs", "\tlet key_id = keys::next_available_key(wallet, keychain_mask, &parent_key_id)?;", "\tlet active = wallet.parent_key_id();\n\tlet key_id = keys::next_available_key(wallet, keychain_mask, &active)?;", "C16.R7")
 
+m("C03-r8", "C03", "libwallet/src/api_impl/owner.rs", "\tif context.late_lock_args.is_some() {\n\t\treturn Ok(());\n\t}\n", "\tif context.late_lock_args.is_some() {\n\t\tdebug!(\"late lock pending\");\n\t}\n", "C03.R8")
+m("C03-r8b", "C03", "libwallet/src/api_impl/owner.rs", "\tif context.late_lock_args.is_some() {\n\t\treturn Ok(());\n\t}\n", "\tif context.late_lock_args.is_none() {\n\t\treturn Ok(());\n\t}\n", "C03.R8")
+
+m("C06-r8", "C06", "libwallet/src/internal/scan.rs", "\tif delete_output {\n\t\tbatch.delete(&output.key_id, &output.mmr_index)?;\n\t} else {\n\t\tbatch.save(output.clone())?;\n\t}\n\tbatch.commit()?;\n\tOk(())\n}", "\tbatch.commit()?;\n\tdrop(batch);\n\tlet mut batch = w.batch(keychain_mask)?;\n\tif delete_output {\n\t\tbatch.delete(&output.key_id, &output.mmr_index)?;\n\t} else {\n\t\tbatch.save(output.clone())?;\n\t}\n\tbatch.commit()?;\n\tOk(())\n}", "C06.R8")
+m("C03-r3acct", "C03", "libwallet/src/api_impl/foreign.rs", "\tlet tx = updater::retrieve_txs(&mut *w, None, Some(ret_slate.id), None, None, use_test_rng)?;", "\tlet tx = updater::retrieve_txs(\n\t\t&mut *w,\n\t\tNone,\n\t\tSome(ret_slate.id),\n\t\tNone,\n\t\tSome(&parent_key_id),\n\t\tuse_test_rng,\n\t)?;", "C03.R3")
+m("C16-r3h", "C16", "libwallet/src/internal/scan.rs", "\t\t\to.status = OutputStatus::Unspent;\n\t\t\tcancel_tx_log_entry(wallet_inst.clone(), keychain_mask, &o, false)?;", "\t\t\to.status = OutputStatus::Unspent;\n\t\t\tcancel_tx_log_entry(wallet_inst.clone(), keychain_mask, &o, true)?;", "C16.R3")
+
 
 def for_property(prop):
     return [x for x in M if x["property"] == prop]
